@@ -1296,6 +1296,13 @@ class PrivKey(PubKey):
 
 
 class OpaquePrivKey(PrivKey, OpaquePubKey):  # pragma: no cover
+    def __bytearray__(self):
+        # the material of an unknown algorithm is read as one block: public part, S2K usage and secret part
+        return OpaquePubKey.__bytearray__(self)
+
+    def __len__(self):
+        return len(self.data)
+
     def __privkey__(self):
         return NotImplemented
 
